@@ -111,6 +111,13 @@ Theorem reported_quantities : forall Q tout tin m (cp : R -> R),
 Proof. exact reported_quantities_lemma. Qed.
 Print Assumptions reported_quantities.
 
+(* consumer results are written on the rows that were calculated, pump results on all rows (generated table) *)
+Theorem reported_rows :
+  res_rows_written = [("hc_res", "qext_w", "active_hydraulics"); ("hc_res", "deltat_k", "active_hydraulics");
+                      ("cp_res", "deltat_k", "all"); ("cp_res", "qext_w", "all")]%string.
+Proof. reflexivity. Qed.
+Print Assumptions reported_rows.
+
 (* ---- 5. loop closure (partial: series loop): sum of mean-c_p duties = reported pump heat + discretisation *)
 Theorem loop_energy_closure_partial : forall cp m l Tflow Treturn,
   chained Tflow l Treturn ->
